@@ -606,6 +606,9 @@ func publishAfterRun(c *an.Ctx, s *sched, rule string) {
 // atomicStatus checks C01.4.
 func atomicStatus(c *an.Ctx, s *sched, rule string) {
 	n := 0
+	guardKeys := map[string]bool{}
+	atomics := 0
+	plain := false
 	for _, fn := range c.P.Funcs {
 		an.EachInstr(fn, func(in ssa.Instruction) {
 			fa, ok := in.(*ssa.FieldAddr)
@@ -624,9 +627,11 @@ func atomicStatus(c *an.Ctx, s *sched, rule string) {
 					name := an.ShortCallee(&x.Call)
 					switch name {
 					case "sync/atomic.LoadInt32":
+						atomics++
 						c.OK(rule, key+":atomic-load", x.Pos(), "atomic load")
 						c.Site(rule, an.Short(fn)+" atomic.LoadInt32 "+c.P.Pos(x.Pos()))
 					case "sync/atomic.StoreInt32":
+						atomics++
 						isUpd := an.Short(fn) == fnUpdateStatus
 						c.Check(isUpd, rule, key+":atomic-store", x.Pos(), "atomic store inside UpdateStatus",
 							"Stage.Status is stored outside UpdateStatus")
@@ -635,6 +640,12 @@ func atomicStatus(c *an.Ctx, s *sched, rule string) {
 						c.Bad(rule, key+":"+name, x.Pos(), "Stage.Status address escapes to %s", name)
 					}
 				case *ssa.UnOp:
+					if k, on := heldLock(fn, x); k != "" && an.SameValue(an.AccessPath(on).Base, fa.X) && leafMutex(c.P, k) {
+						guardKeys[k] = true
+						c.OK(rule, key+":locked-read", x.Pos(), "read under the stage's own leaf mutex "+k)
+						continue
+					}
+					plain = true
 					if strings.Contains(fn.Pkg.Pkg.Path(), "pkg/scheduler") {
 						c.Bad(rule, key+":plain-read", x.Pos(), "non-atomic read of Stage.Status inside pkg/scheduler")
 					} else {
@@ -645,6 +656,11 @@ func atomicStatus(c *an.Ctx, s *sched, rule string) {
 						fresh := false
 						if a, ok := fa.X.(*ssa.Alloc); ok && a.Heap {
 							fresh = true
+						}
+						if k, on := heldLock(fn, x); !fresh && k != "" && an.SameValue(an.AccessPath(on).Base, fa.X) && leafMutex(c.P, k) {
+							guardKeys[k] = true
+							c.Check(an.Short(fn) == fnUpdateStatus, rule, key+":locked-write", x.Pos(), "write under the stage's own leaf mutex "+k+" inside UpdateStatus", "Stage.Status is stored outside UpdateStatus")
+							continue
 						}
 						if fresh {
 							c.OK(rule, key+":init", x.Pos(), "initialisation of a freshly allocated stage")
@@ -662,6 +678,11 @@ func atomicStatus(c *an.Ctx, s *sched, rule string) {
 	if n == 0 {
 		c.Und(rule, "Stage.Status", token.NoPos, "no access to Stage.Status found")
 	}
+	// one discipline: the accesses that rely on a mutex all rely on the same one, and none relies on atomics then
+	if len(guardKeys) > 1 || (len(guardKeys) == 1 && atomics > 0) {
+		c.Bad(rule, "Stage.Status:discipline", token.NoPos, "accesses to Stage.Status are synchronised in different ways (%d mutexes, %d atomic accesses): they do not exclude each other", len(guardKeys), atomics)
+	}
+	_ = plain
 }
 
 // edgeWiring checks C01.5.
